@@ -387,7 +387,7 @@ func init() {
 	extraToks := []string{"nil", "A", "A*", "A~", "B", "B*", "B~", "Pub", "C", "C*", "D", "D~", "E", "E*"}
 	Register(&Prop{
 		ID: "C10",
-		Rule: fmt.Sprintf("reference scan model (to, cc, bto, bcc, [actor: IntransitiveActivity/Question], audience; key = IRI normaliser without scheme; first mention kept; nil entries in place; a Block's object removed everywhere first); exhaustive layer on Object: all %d assignments of total length <= %d over the five lists from %d tokens (2 addressees x {IRI, embedded, scheme/case/trailing-slash variant}, the public collection, nil); covering layer: every %dth assignment on each of the %d types with Recipients() x actor/Block variants; random layer: lists up to 8 over 14 tokens; the returned list (sequence of keys) and the four lists left behind (by identity of surviving entries) are compared; distinct = the case; non-trivial = some addressee mentioned more than once or a nil entry",
+		Rule: fmt.Sprintf("reference scan model (to, cc, bto, bcc, [actor: IntransitiveActivity/Question], audience; key = IRI normaliser without scheme; first mention kept; nil entries in place; a Block's object removed everywhere first); exhaustive layer on Object: all %d assignments of total length <= %d over the five lists from %d tokens (2 addressees x {IRI, embedded, scheme/case/trailing-slash variant}, the public collection, nil); covering layer: every %dth assignment on each of the %d types with Recipients() x actor/Block variants; random layer: lists up to 8 over 14 tokens; item lists of 1-3 member objects through ItemCollection.Recipients(); the returned list (sequence of keys) and the four lists left behind (by identity of surviving entries) are compared; distinct = the case; non-trivial = some addressee mentioned more than once or a nil entry",
 			total, maxTotal, nt, 97, len(rcptKinds)),
 		Layers: func(tier string) []Layer {
 			stride := 97
@@ -424,6 +424,97 @@ func init() {
 						c.Sample(map[string]any{"case": rc.String()})
 					}
 					runRecipients(c, rc)
+				}},
+				{Name: "list-of-objects", N: tierN(tier, 20000, 200000), Run: func(c *Ctx, idx int) {
+					// ItemCollection.Recipients(): every member object is de-duplicated on its own, the returned list is the
+					// union in order of first mention
+					nm := 1 + c.R.Intn(3)
+					var members vocab.ItemCollection
+					var want []string
+					seenAll := map[string]bool{}
+					var desc []string
+					type left struct {
+						obj   *vocab.Object
+						lists [4][]vocab.Item
+					}
+					var lefts []left
+					for m := 0; m < nm; m++ {
+						o := &vocab.Object{ID: vocab.IRI(fmt.Sprintf("https://example.com/member/%d", m)), Type: vocab.NoteType}
+						var lists [5][]vocab.Item
+						var toks [5][]string
+						for i := 0; i < 5; i++ {
+							for k := c.R.Intn(4); k > 0; k-- {
+								t := extraToks[c.R.Intn(len(extraToks))]
+								toks[i] = append(toks[i], t)
+								lists[i] = append(lists[i], rcptItem(t))
+							}
+						}
+						o.To, o.CC, o.Bto, o.BCC, o.Audience = append(vocab.ItemCollection{}, lists[0]...), append(vocab.ItemCollection{}, lists[1]...), append(vocab.ItemCollection{}, lists[2]...), append(vocab.ItemCollection{}, lists[3]...), append(vocab.ItemCollection{}, lists[4]...)
+						desc = append(desc, fmt.Sprintf("member%d to=%v cc=%v bto=%v bcc=%v audience=%v", m, toks[0], toks[1], toks[2], toks[3], toks[4]))
+						// member model
+						seen := map[string]bool{}
+						l := left{obj: o}
+						for i := 0; i < 5; i++ {
+							for _, e := range lists[i] {
+								if e == nil {
+									if i < 4 {
+										l.lists[i] = append(l.lists[i], e)
+									}
+									continue
+								}
+								k := rcptKey(e)
+								if seen[k] {
+									continue
+								}
+								seen[k] = true
+								if i < 4 {
+									l.lists[i] = append(l.lists[i], e)
+								}
+								if !seenAll[k] {
+									seenAll[k] = true
+									want = append(want, k)
+								}
+							}
+						}
+						lefts = append(lefts, l)
+						members = append(members, o)
+					}
+					label := "ItemCollection[" + strings.Join(desc, " ; ") + "]"
+					c.Distinct(label, true)
+					var ret vocab.ItemCollection
+					c.Pending("ItemCollection.Recipients")
+					if c.Guard("ItemCollection.Recipients", func() { ret = members.Recipients() }) {
+						return
+					}
+					c.Eval(1)
+					c.Count("calls", 1)
+					c.Count("kind:ItemCollection", 1)
+					var got []string
+					for _, e := range ret {
+						if e == nil {
+							got = append(got, "<nil>")
+						} else {
+							got = append(got, rcptKey(e))
+						}
+					}
+					if strings.Join(got, " , ") != strings.Join(want, " , ") {
+						c.Fail("rcpt|ItemCollection|returned|differs", fmt.Sprintf("Recipients() of %s returned %v, model says %v", label, got, want), map[string]any{"case": label, "got": got, "want": want})
+					}
+					for _, l := range lefts {
+						for i, gl := range []vocab.ItemCollection{l.obj.To, l.obj.CC, l.obj.Bto, l.obj.BCC} {
+							same := len(gl) == len(l.lists[i])
+							if same {
+								for k := range gl {
+									if !sameItem(gl[k], l.lists[i][k]) {
+										same = false
+									}
+								}
+							}
+							if !same {
+								c.Fail(fmt.Sprintf("rcpt|ItemCollection|member-%s-left-behind", []string{"to", "cc", "bto", "bcc"}[i]), fmt.Sprintf("after Recipients() of %s a member's %s is %s, expected %s", label, []string{"to", "cc", "bto", "bcc"}[i], itemsDesc(gl), itemsDesc(l.lists[i])), map[string]any{"case": label})
+							}
+						}
+					}
 				}},
 				{Name: "random", N: tierN(tier, 50000, 1000000), Run: func(c *Ctx, idx int) {
 					var rc rcptCase
